@@ -378,6 +378,15 @@ impl Archive {
         file.read_exact(&mut footer_size_bytes)?;
         let footer_size = u64::from_le_bytes(footer_size_bytes);
 
+        // A truncated or corrupt file has arbitrary bytes here: the footer must fit in the
+        // file in front of its own 8-byte length, otherwise the subtraction below underflows
+        // (a panic with overflow checks, a wild seek and a garbage-sized allocation without).
+        if file_size < 8 || footer_size > file_size - 8 {
+            anyhow::bail!(
+                "Invalid archive: footer size {footer_size} does not fit in a file of {file_size} bytes"
+            );
+        }
+
         // Seek to start of footer
         file.seek(SeekFrom::Start(file_size - 8 - footer_size))?;
 
